@@ -27,7 +27,9 @@ OUT = sys.argv[1] if len(sys.argv) > 1 else os.path.join(os.path.dirname(__file_
 src_path = os.path.join(REPO, 'dasp_signal/src/lib.rs')
 src = open(src_path).read()
 # comments blanked, offsets and line numbers survive
-src_nc = re.sub(r'//[^\n]*', lambda m: ' ' * len(m.group(0)), src)
+sys.path.insert(0, os.path.dirname(os.path.abspath(__file__)))
+from rustexpr import blank_comments
+src_nc = blank_comments(src)
 
 errors = []
 found = {}
@@ -89,9 +91,9 @@ noise_impl = region('Noise::next_sample', r'impl\s+Noise\s*\{')
 noise1 = region('noise_1', r'fn\s+noise_1\s*\(\s*seed\s*:\s*u64\s*\)\s*->\s*f64\s*\{', within=noise_impl) if noise_impl else None
 vals = {}
 for k in (1, 2, 3):
-    m = need('noise_1.PRIME_%d' % k, noise1, r'constPRIME_%d:u64=([0-9_]+);' % k, '`const PRIME_%d: u64 = <int>;`' % k)
+    m = need('noise_1.PRIME_%d' % k, noise1, r'constPRIME_%d:u64=(0x[0-9a-fA-F_]+|[0-9_]+)(?:u64)?;' % k, '`const PRIME_%d: u64 = <int>;`' % k)
     vals['prime%d' % k] = num_int(m.group(1)) if m else 0
-m = need('noise_1.x', noise1, r'letx=\(seed<<([0-9_]+)\)\^seed;', '`let x = (seed << K) ^ seed;`')
+m = need('noise_1.x', noise1, r'letx=\(seed<<(0x[0-9a-fA-F_]+|[0-9_]+)\)\^seed;', '`let x = (seed << K) ^ seed;`')
 vals['seedShift'] = num_int(m.group(1)) if m else 0
 m = need('noise_1.expr', noise1,
          r';1\.0-\(x\.wrapping_mul\(x\.wrapping_mul\(x\)\.wrapping_mul\(PRIME_1\)\.wrapping_add\(PRIME_2\),?\)\.wrapping_add\(PRIME_3\)&(0x[0-9a-fA-F_]+|[0-9_]+)\)asf64/([0-9_]+\.[0-9_]*)\}$',
@@ -104,7 +106,7 @@ if m:
 else:
     vals['noiseMask'] = 0; vals['noiseDiv'] = 0
 m = need('Noise::next_sample.step', noise_impl,
-         r'letnoise=noise_1\(self\.seed\);self\.seed=self\.seed\.wrapping_add\(([0-9_]+)\);noise\}',
+         r'letnoise=noise_1\(self\.seed\);self\.seed=self\.seed\.wrapping_add\((0x[0-9a-fA-F_]+|[0-9_]+)(?:u64)?\);noise\}',
          '`let noise = noise_1(self.seed); self.seed = self.seed.wrapping_add(1); noise`')
 vals['seedInc'] = num_int(m.group(1)) if m else 0
 
@@ -118,7 +120,7 @@ if m:
     else: vals['simplexWrap'] = mm
 need('NoiseSimplex.phase', simplex_impl, r'letphase=self\.phase\.next_phase_wrapped_to\(TWO_POW_SIXTEEN\);', '`let phase = self.phase.next_phase_wrapped_to(TWO_POW_SIXTEEN);`')
 perm = []
-m = need('simplex_noise_1d.PERM', simplex_impl, r'constPERM:\[u8;([0-9_]+)\]=\[([0-9_,]*)\];', '`const PERM: [u8; 256] = [ ... ];`')
+m = need('simplex_noise_1d.PERM', simplex_impl, r'constPERM:\[u8;(0x[0-9a-fA-F_]+|[0-9_]+)\]=\[([0-9a-fA-Fxu_,]*)\];', '`const PERM: [u8; 256] = [ ... ];`')
 if m:
     n = num_int(m.group(1))
     perm = [num_int(t) for t in m.group(2).split(',') if t != '']
@@ -128,7 +130,7 @@ if m:
         err('simplex_noise_1d.PERM', 'entry does not fit u8', line_of(simplex_impl[0]))
 need('simplex_noise_1d.hash', simplex_impl, r'fnhash\(i:i64\)->u8\{PERM\[\(iasu8\)asusize\]\}', '`fn hash(i: i64) -> u8 { PERM[(i as u8) as usize] }`')
 m = need('simplex_noise_1d.grad', simplex_impl,
-         r'fngrad\(hash:i64,x:f64\)->f64\{leth=hash&(0x[0-9a-fA-F]+|[0-9]+);letmutgrad=1\.0\+\(h&([0-9]+)\)asf64;if\(h&([0-9]+)\)!=0\{grad=-grad;\}grad\*x\}',
+         r'fngrad\(hash:i64,x:f64\)->f64\{leth=hash&(0x[0-9a-fA-F_]+|[0-9_]+);letmutgrad=1\.0\+\(h&(0x[0-9a-fA-F_]+|[0-9_]+)\)asf64;if\(h&(0x[0-9a-fA-F_]+|[0-9_]+)\)!=0\{grad=-grad;\}grad\*x\}',
          '`fn grad(hash, x) { let h = hash & 0x0F; let mut grad = 1.0 + (h & 7) as f64; if (h & 8) != 0 { grad = -grad; } grad * x }`')
 vals['gradMask'], vals['gradMag'], vals['gradSign'] = (num_int(m.group(1)), num_int(m.group(2)), num_int(m.group(3))) if m else (0, 0, 0)
 need('simplex_noise_1d.body', simplex_impl,
